@@ -5,9 +5,14 @@ from __future__ import annotations
 
 SUPER = "⁰¹²³⁴⁵⁶⁷⁸⁹"
 SYMBOL_CHARS = "1abcdefghijklmnopqrstuvwxyzABCDEFGHIJKLMNOPQRSTUVWXYZÅₐₑₒₓₕₖₗₘₙₚₛₜΑΒΓΔΩαβγδμπω☉.°-()"
-ALPHABET = list(SYMBOL_CHARS) + list("0123456789+-.eE^*/⋅ \t") + list(SUPER) + ["⁻"]
+ALPHABET = list(SYMBOL_CHARS) + list("0123456789+-.eE^*/⋅ \t\n\r\f") + list(SUPER) + ["⁻"]
 COMMON_SYMBOLS = ["m", "s", "g", "kg", "A", "K", "mol", "cd", "Hz", "N", "Pa", "J", "W", "C", "V", "Ω", "ft.", "in.", "lb.", "°C", "°F", "km", "μm",
                   "KiB", "MB", "b", "B", "h", "min", "d", "L", "mL", "rad", "°", "eV", "mₑ", "M☉", "Å", "meter", "second", "hertz", "ohm", "1"]
+
+
+# every character of the grammar's ignored WS terminal (space, tab, form feed, carriage return, line feed), alone
+# and in runs; multi-line input is ordinary for text read from files and forms
+WHITESPACE = [" ", " ", " ", "  ", "\t", "\n", " \n", "\n ", "\r\n", "\f", "\r", "\n\n\t ", " \t \n"]
 
 
 class TextGen:
@@ -76,8 +81,11 @@ class TextGen:
                 nxt = toks[i + 1]
                 need_space = t[-1] in SYMBOL_CHARS and nxt[0] in SYMBOL_CHARS
                 if need_space or r.random() < 0.3:
-                    out.append(r.choice([" ", " ", "  ", "\t"]))
-        return "".join(out)
+                    out.append(r.choice(WHITESPACE))
+        text = "".join(out)
+        if r.random() < 0.08:   # ignored whitespace is legal before and after the text as well
+            text = r.choice(WHITESPACE) + text if r.random() < 0.5 else text + r.choice(WHITESPACE)
+        return text
 
     # ---- generators -------------------------------------------------------------------------------
     def valid_unit(self):
